@@ -700,6 +700,20 @@ def parse_case(line):
     return op, method, p, lim, fex, ann.split() if ann else []
 
 
+def split_session(line):
+    """the calls of a session line as case lines of their own ('<call> # <annotation>')"""
+    body, _, ann = line.partition(" # ")
+    calls = body.split(" ", 2)[2].split(" ;; ")
+    anns = ann.split(" ;; ") if ann else [""] * len(calls)
+    return [c + (" # " + a if a else "") for c, a in zip(calls, anns)]
+
+
+def split_out(io):
+    """the per-call parts of the output line of a session (each: the call's own output, then its value in a fresh process)"""
+    parts = [x.strip() for x in io.split("|")]
+    return parts[:-1] if parts and parts[-1] == "" else parts
+
+
 CORR = ("1dcorr", "ndcorr", "sphcorr")        # compared with the model / the direct call only (no accuracy claim)
 
 
@@ -760,16 +774,29 @@ def dims(op): return {"named1d": 1, "nested2d": 2, "nested3d": 3, "spherical": 3
 
 # ---------------------------------------------------------------- model vs implementation
 def compare(c, io, mo, tol):
+    if not c.line.startswith("session "): return compare_call(c.line, io, mo)
+    if io == mo: return True, True, ""
+    subs = split_session(c.line); ci, cm = split_out(io), split_out(mo)
+    if len(ci) != len(subs) or len(cm) != len(subs): return False, False, f"impl {io[:60]} model {mo[:60]}"
+    bit = True
+    for j, (sl, x, y) in enumerate(zip(subs, ci, cm)):
+        ok, b, detail = compare_call(sl, x, y)
+        if not ok: return False, False, f"call {j + 1} of the session: " + detail
+        bit = bit and b
+    return True, bit, ""
+
+
+def compare_call(line, io, mo):
     if io == mo: return True, True, ""
     a, b = io.split(), mo.split()
     if io.startswith("CRASH") or (a and tokf(a[0]) is not None):
-        op, method, p, lim, fex, ann = parse_case(c.line)
+        op, method, p, lim, fex, ann = parse_case(line)
         # the boost back ends are not modelled (stand-in rule); where Tanh-Sinh is known to abort or to lose accuracy (K-C13-1, reported by the
         # predicates on the implementation's output) the stand-in has nothing to be compared with
         if tanh_sinh_narrow(op, method, lim) and b and tokf(b[0]) is not None: return True, False, ""
     if not a or not b or tokf(a[0]) is None or tokf(b[0]) is None:
         return False, False, f"impl {io[:60]} model {mo[:60]}"
-    op, method, p, lim, fex, ann = parse_case(c.line)
+    op, method, p, lim, fex, ann = parse_case(line)
     es = exact_and_scale(op, lim, fex, ann)
     scale = es[1] if es else max(abs(tokf(a[0])), abs(tokf(b[0])))
     inner = inner_of(fex)
@@ -834,8 +861,27 @@ def as_false_acceptance(op, lim, ann, val, ex, slack):
 
 
 def predicates(c, io):
+    if not c.line.startswith("session "): return predicates_call(c.line, io)
     out = []
-    op, method, p, lim, fex, ann = parse_case(c.line)
+    if io.startswith("CRASH"): return [("CRASH:session", f"the implementation ended with {io} during this sequence of calls")]
+    if io.startswith(("SANITIZER", "TIMEOUT", "HARNESSERR")): return out
+    if io.startswith("EXIT"): return [("session:exit", "a sequence of valid requests terminated the process")]
+    subs = split_session(c.line); parts = split_out(io)
+    if len(parts) != len(subs): return [("session:shape", f"{len(subs)} calls but {len(parts)} answers")]
+    for j, (sl, x) in enumerate(zip(subs, parts)):
+        t = x.split()
+        fresh = t[-1]; own = " ".join(t[:-1])
+        where = f"call {j + 1} of {len(subs)} made one after the other in one process ({' '.join(sl.split()[:3])} ...): "
+        for sig, msg in predicates_call(sl, own): out.append((sig, where + msg))
+        if tokf(fresh) is None: out.append(("session:fresh-process", where + f"the same call made in a fresh process ended with {fresh}"))
+        elif t[0] != fresh and not (math.isnan(tokf(t[0])) and math.isnan(tokf(fresh))):
+            out.append(("session:history-dependence", where + f"the result is {tokf(t[0])!r} but the same call made in a process that has made no other call gives {tokf(fresh)!r}"))
+    return out
+
+
+def predicates_call(line, io):
+    out = []
+    op, method, p, lim, fex, ann = parse_case(line)
     if io.startswith("CRASH"):
         # (the generic report of tools/vcheck.py is replaced by this one, ALLOW_CRASH, so that the known abort has a signature of its own)
         region = ":tanh-sinh-narrow-interval" if tanh_sinh_narrow(op, method, lim) else ""
@@ -877,8 +923,10 @@ def predicates(c, io):
             lo, hi = min(lim[2 * k], lim[2 * k + 1]), max(lim[2 * k], lim[2 * k + 1])
             mn, mx = mm[2 * k], mm[2 * k + 1]
             if op == "spherical":
-                if k == 2 and hi - lo > 6.28: continue                      # azimuth is recorded modulo 2 pi
+                # the azimuth is recorded as the representative modulo 2 pi within pi of the middle of the range: a range of (nearly) a full turn or more fills that window
+                if k == 2 and hi - lo > 2 * math.pi - 0.02: continue
                 sl = 4e-16 * max(abs(lo), abs(hi), 1.0) * 4
+                if k == 2: sl = 16 * 2.0 ** -52 * max(abs(lo), abs(hi), 2 * math.pi)      # atan2, the difference from the middle, the reduction and the sum: a few roundings at the magnitude of the range
                 name = ("norm of the vector", "cosine of its polar angle", "its azimuth")[k]
                 if k == 1 and min(abs(lim[0]), abs(lim[1])) == 0.0 and mm[0] < 1e-300: continue
             else:
@@ -901,6 +949,7 @@ def predicates(c, io):
 
 
 def nontrivial(c, io):
+    if c.line.startswith("session "): return len(split_session(c.line)) >= 2 and not io.startswith(("CRASH", "EXIT", "TIMEOUT", "SANITIZER", "HARNESSERR"))
     op, method, p, lim, fex, ann = parse_case(c.line)
     if op == "named1d": return lim[0] >= lim[1] or p != 0 or method not in METHODS or "@" in fex
     iv = [(min(lim[2 * k], lim[2 * k + 1]), max(lim[2 * k], lim[2 * k + 1])) for k in range(dims(op))]
